@@ -11,6 +11,7 @@ RULE = ('field: straight-line programs over the public operators inside the oper
         '(through the read-only hook); distinct = (op family, shape/class)')
 ASSUMPTIONS = ['Python integers modulo p and L; Edwards arithmetic of the C13/C14 oracle']
 FLOORS = {'evaluations': 5000, 'distinct': 3000, 'coverage': {'table:GE_BASE': 256, 'table:BI': 8, 'select': 32 * 17}}
+THOROUGH_ROUNDS = 40   # thorough tier: generator passes with derived seeds (runner.gen_rounds)
 P, L = o.P, o.L
 M255 = (1 << 255) - 1
 
@@ -73,7 +74,7 @@ def fe_program(rng, nops):
         elif r < 78:
             steps.append('sq.%d' % rng.choice(anyr)); units.append(1)
         elif r < 84:
-            steps.append('sqn.%d.%d' % (rng.choice(anyr), rng.choice([1, 2, 3, 5, 10, 50]))); units.append(1)
+            steps.append('sqn.%d.%d' % (rng.choice(anyr), rng.choice([0, 1, 2, 3, 5, 10, 50]))); units.append(1)
         elif r < 90:
             steps.append('sq2.%d' % rng.choice(anyr)); units.append(1)
         elif r < 94:
@@ -82,6 +83,30 @@ def fe_program(rng, nops):
             steps.append('pow.%d' % rng.choice(anyr)); units.append(1)
         else:
             steps.append('eq.%d.%d' % (rng.choice(anyr), rng.choice(anyr)))
+    return steps
+
+
+def deep_add_program(rng):
+    """64-bit backend only (its `+` carries, so sums of sums are ordinary operands; the 32-bit backend documents a magnitude
+    precondition on `+` instead and is never given these): long chains of additions / doublings, then every kind of consumer."""
+    def rv():
+        c = rng.below(8)
+        return le32(rng.choice(FE_INPUTS) if c < 3 else (structured_fe(rng) if c < 5 else int.from_bytes(rng.bytes(32), 'little')))
+    steps = ['in.' + rv(), 'in.' + rv(), 'in.' + le32(P - 1), 'in.' + le32((1 << 255) - 1)]
+    acc = rng.below(4)
+    for _ in range(rng.choice([4, 5, 6, 8, 9, 12, 16, 17, 24, 40])):
+        r = rng.below(10)
+        other = acc if r < 4 else rng.below(len(steps))
+        steps.append('add.%d.%d' % (acc, other))
+        acc = len(steps) - 1
+        if r == 9:
+            steps.append('sub.%d.%d' % (rng.below(len(steps)), acc))
+    if rng.below(4) == 0:
+        for _ in range(rng.choice([10, 13, 14, 20])):     # doublings: 2^13 = 8192-fold sums
+            steps.append('add.%d.%d' % (acc, acc)); acc = len(steps) - 1
+    n = len(steps)
+    steps += ['neg.%d' % acc, 'sub.0.%d' % acc, 'sub.%d.1' % acc, 'mul.%d.%d' % (acc, acc), 'sq.%d' % acc, 'sq2.%d' % acc, 'sqn.%d.2' % acc, 'mul.%d.0' % acc,
+              'inv.%d' % acc, 'pow.%d' % acc, 'eq.%d.%d' % (acc, n - 2), 'add.%d.%d' % (n, acc), 'eq.%d.2' % acc]
     return steps
 
 
@@ -160,6 +185,10 @@ def gen(tier, seed):
             yield 'fe %s #fe-identity' % ' '.join(pr)
     for T in directed_targets(rng, 2500 if thorough else 500):
         yield 'fe %s #fe-result-directed' % ' '.join(result_directed_program(rng, T))
+    for _ in range(2000 if thorough else 400):
+        yield 'fe %s #fe-deep64' % ' '.join(deep_add_program(rng))
+    for v in FE_INPUTS:
+        yield 'fe in.%s in.%s sqn.0.0 sqn.1.0 sqn.2.1 sq.0 eq.2.0 eq.5.4 #fe-sqn0' % (le32(v), le32(rng.choice(FE_INPUTS)))
     for v in FE_INPUTS:
         yield 'fe in.%s in.%s mul.0.1 sq.0 inv.0 pow.0 sq2.0 sqn.0.4 add.0.1 sub.1.0 neg.0 eq.0.1 #fe-edge' % (le32(v), le32(rng.choice(FE_INPUTS)))
     # ---- scalars
